@@ -119,6 +119,8 @@ RecvInterest(i, o) ==
        /\ UNCHANGED <<now, up, fib, strat, cs, lru, cap, csAdmit, csServe>>
 
 (* ---- rules (evaluated in the pre-state of the step) ------------------------ *)
+\* the consumer names the very (point-to-point) face its Interest arrived on as next hop (Dev "NhBackToArrival": the shipped shortcut sent it)
+NhBack(i) == i.nh = i.f /\ i.nh \notin AdHocFaces /\ "NhBackToArrival" \notin Dev
 IUsable(g, f, hop1) == g \in up /\ (g # f \/ g \in AdHocFaces) /\ ~(hop1 = 0 /\ ~Local(g))
 IStage(i) ==   \* "early" | "dup" | "cs?" (cache consulted) | "fwd" (cache not consulted)
   LET old == EntryOf(KeyOf(i.n, i.cbp, i.mbf, i.hints))
@@ -146,7 +148,8 @@ RI_C02(i, o) ==
       cheapest(U) == IF U = {} THEN {} ELSE { g \in U : nh[g] = MinS({ nh[x] : x \in U }) }
       stage == IStage(i)
   IN IF stage \in {"early", "dup"} \/ o.hit THEN o.S = {}
-     ELSE IF i.nh # -1 THEN o.S \subseteq {i.nh} /\ (i.nh \in up /\ ScopeOk(i.nh, i.n) => o.S = {i.nh}) /\ (i.nh \notin up => o.S = {})
+     ELSE IF i.nh # -1 THEN /\ o.S \subseteq {i.nh} /\ (i.nh \in up /\ ScopeOk(i.nh, i.n) /\ ~NhBack(i) => o.S = {i.nh}) /\ (i.nh \notin up => o.S = {})
+                            /\ NhBack(i) => o.S = {}      \* the consumer-chosen next hop is no exception to "never back out of the arrival face"
      ELSE /\ o.S \subseteq loose
           /\ ISupp(old, i.nonce, StrategyOf(i.n)) => o.S = {}
           /\ IF StrategyOf(i.n) = "multicast"
@@ -187,7 +190,7 @@ ImplSSet(i, csn) ==
       usable == { g \in allowed : IUsable(g, i.f, hop1) /\ scoped(g) }
       stage == IStage(i)
   IN IF stage \in {"early", "dup"} \/ csn # NoName THEN {{}}
-     ELSE IF i.nh # -1 THEN (IF i.nh \in up /\ scoped(i.nh) THEN {{i.nh}} ELSE {{}})
+     ELSE IF i.nh # -1 THEN (IF i.nh \in up /\ scoped(i.nh) /\ ~NhBack(i) THEN {{i.nh}} ELSE {{}})
      ELSE IF allowed = {} \/ ISupp(old, i.nonce, StrategyOf(i.n)) \/ usable = {} THEN {{}}
      ELSE IF StrategyOf(i.n) = "multicast" THEN {usable}
      ELSE { {g} : g \in { h \in usable : nh[h] = MinS({ nh[x] : x \in usable }) } }
